@@ -66,7 +66,7 @@ class C19Engine(Engine):
             c = decode(b)
             c["cli"] = True
             return c
-        return [("default", st.binary(min_size=NB, max_size=NB).map(decode), 400 if tier == "quick" else 20000),
+        return [("default", st.binary(min_size=NB, max_size=NB).map(decode), 800 if tier == "quick" else 20000),
                 ("cli-subprocess", st.binary(min_size=NB, max_size=NB).map(with_cli), 16 if tier == "quick" else 200)]
 
     def nontrivial(self, case: dict, out: dict) -> bool:
